@@ -32,6 +32,7 @@ import (
 	"io"
 	"net"
 	"os"
+	"strconv"
 	"strings"
 	"testing"
 	"time"
@@ -100,10 +101,41 @@ var ctorNames = func() []string {
 	return out
 }()
 
+// drawCtor picks one of the 24 constructors.  rapid's own samplers favour
+// small values heavily (a plain SampledFrom gave a quarter of all cases to
+// pair); mixing three drawn integers spreads the cases evenly over the 12
+// protocol numbers.  The chosen name is recorded in the replay document.
+func drawCtor(t *rapid.T) string {
+	var x uint32
+	for _, l := range []string{"ctor.a", "ctor.b", "ctor.c"} {
+		x = (x ^ rapid.Uint32().Draw(t, l)) * 2654435761
+		x ^= x >> 15
+	}
+	return ctorNames[int(x>>8)%len(ctorNames)]
+}
+
 var (
 	streamTransports = []string{"tcp", "ipc", "tls+tcp"}
 	allTransports    = []string{"tcp", "ipc", "tls+tcp", "ws", "wss"}
 )
+
+// The 20 sub-configurations (test x transport x role) are numbered (Handshake
+// 0-5, Messages 6-15, WSSubprotocol 16-19) and dealt out over the shards the
+// driver starts; within a process they all run in parallel.
+func subtest(t *testing.T, idx int, name string, prop func(*rapid.T)) {
+	shard, _ := strconv.Atoi(os.Getenv("VERIF_SHARD"))
+	nshards, _ := strconv.Atoi(os.Getenv("VERIF_NSHARDS"))
+	if nshards <= 0 {
+		nshards = 1
+	}
+	if idx%nshards != shard%nshards {
+		return
+	}
+	t.Run(name, func(t *testing.T) {
+		t.Parallel()
+		rapid.Check(t, prop)
+	})
+}
 
 func settle() time.Duration { return time.Duration(stats.Scale(100, 300)) * time.Millisecond }
 
@@ -393,7 +425,7 @@ func genDeviation(t *rapid.T, label string, info spInfo) deviation {
 }
 
 func handshakeCase(t *rapid.T, tr string, dial bool) {
-	ctor := rapid.SampledFrom(ctorNames).Draw(t, "ctor")
+	ctor := drawCtor(t)
 	info := infoOf(ctor)
 	n := rapid.IntRange(1, 6).Draw(t, "n")
 	devs := make([]deviation, n)
@@ -422,12 +454,19 @@ func handshakeCase(t *rapid.T, tr string, dial bool) {
 		if d.Kind == "short" {
 			halfClose(c)
 		}
-		closed, extra := awaitClose(c, 3*time.Second)
+		// wait (up to 3 s) for mangos to close; stop early once a pipe shows up
+		var closed bool
+		var extra []byte
+		for end := time.Now().Add(3 * time.Second); !closed && r.ev.Attached() == 0 && time.Now().Before(end); {
+			var more []byte
+			closed, more = awaitClose(c, 100*time.Millisecond)
+			extra = append(extra, more...)
+		}
 		if r.ev.Attached() > 0 {
 			stats.Fail(t, "C15:accepted-bad-header:"+tr, doc, "%s: a pipe was Attached after the peer sent the header % x (%s; correct is % x)",
 				who, d.raw, d.Kind, wire.Header(info.peer))
 		}
-		if !closed {
+		if !closed && r.ev.Attached() == 0 {
 			stats.Fail(t, "C15:bad-header-not-closed:"+tr, doc, "%s: connection still open 3 s after the peer sent the header % x (%s)", who, d.raw, d.Kind)
 		}
 		if len(extra) > 0 {
@@ -462,13 +501,10 @@ func handshakeCase(t *rapid.T, tr string, dial bool) {
 
 func TestC15Handshake(t *testing.T) {
 	t.Parallel()
-	for _, tr := range streamTransports {
-		for _, dial := range []bool{false, true} {
+	for i, tr := range streamTransports {
+		for j, dial := range []bool{false, true} {
 			tr, dial := tr, dial
-			t.Run(tr+"/"+roleName(dial), func(t *testing.T) {
-				t.Parallel()
-				rapid.Check(t, func(rt *rapid.T) { handshakeCase(rt, tr, dial) })
-			})
+			subtest(t, 2*i+j, tr+"/"+roleName(dial), func(rt *rapid.T) { handshakeCase(rt, tr, dial) })
 		}
 	}
 }
@@ -838,7 +874,7 @@ func dirsOf(ctor string) []string {
 }
 
 func messagesCase(t *rapid.T, tr string, dial bool) {
-	ctor := rapid.SampledFrom(ctorNames).Draw(t, "ctor")
+	ctor := drawCtor(t)
 	n := rapid.IntRange(1, 5).Draw(t, "n")
 	dirs := dirsOf(ctor)
 	steps := make([]xfer, n)
@@ -903,13 +939,10 @@ func messagesCase(t *rapid.T, tr string, dial bool) {
 
 func TestC15Messages(t *testing.T) {
 	t.Parallel()
-	for _, tr := range allTransports {
-		for _, dial := range []bool{false, true} {
+	for i, tr := range allTransports {
+		for j, dial := range []bool{false, true} {
 			tr, dial := tr, dial
-			t.Run(tr+"/"+roleName(dial), func(t *testing.T) {
-				t.Parallel()
-				rapid.Check(t, func(rt *rapid.T) { messagesCase(rt, tr, dial) })
-			})
+			subtest(t, 6+2*i+j, tr+"/"+roleName(dial), func(rt *rapid.T) { messagesCase(rt, tr, dial) })
 		}
 	}
 }
@@ -978,7 +1011,7 @@ func contains(l []string, s string) bool {
 }
 
 func subprotoListenCase(t *rapid.T, tr string) {
-	ctor := rapid.SampledFrom(ctorNames).Draw(t, "ctor")
+	ctor := drawCtor(t)
 	info := infoOf(ctor)
 	right := info.selfName + spSuffix
 	n := rapid.IntRange(1, 4).Draw(t, "n")
@@ -1052,7 +1085,7 @@ func subprotoListenCase(t *rapid.T, tr string) {
 }
 
 func subprotoDialCase(t *rapid.T, tr string) {
-	ctor := rapid.SampledFrom(ctorNames).Draw(t, "ctor")
+	ctor := drawCtor(t)
 	info := infoOf(ctor)
 	want := info.peerName + spSuffix
 	refusals := rapid.IntRange(0, 3).Draw(t, "refusals")
@@ -1118,16 +1151,10 @@ func subprotoDialCase(t *rapid.T, tr string) {
 
 func TestC15WSSubprotocol(t *testing.T) {
 	t.Parallel()
-	for _, tr := range []string{"ws", "wss"} {
+	for i, tr := range []string{"ws", "wss"} {
 		tr := tr
-		t.Run(tr+"/listen", func(t *testing.T) {
-			t.Parallel()
-			rapid.Check(t, func(rt *rapid.T) { subprotoListenCase(rt, tr) })
-		})
-		t.Run(tr+"/dial", func(t *testing.T) {
-			t.Parallel()
-			rapid.Check(t, func(rt *rapid.T) { subprotoDialCase(rt, tr) })
-		})
+		subtest(t, 16+2*i, tr+"/listen", func(rt *rapid.T) { subprotoListenCase(rt, tr) })
+		subtest(t, 17+2*i, tr+"/dial", func(rt *rapid.T) { subprotoDialCase(rt, tr) })
 	}
 }
 
